@@ -57,7 +57,7 @@ def K(tag, invs=None, **kw):
 def R(tag, maxrepl):
     return {"type": "gen", "tag": tag, "module": "MCRepl.tla", "init": "RInit", "next": "RNext",
             "consts": {"MaxRepl": maxrepl, "Alpha": "{97}", "MaxLen": 0, "Repl2": "<-ReplSpan"},
-            "invs": ["T12_ReplLaw", "EmitRepl"]}
+            "invs": ["T12_ReplLaw", "T20_ReplRefines", "EmitRepl"]}
 
 
 def T(tag, profile, nq, nt, mode="cases", unopt=False):
@@ -99,7 +99,7 @@ def plan(prop, tier):
                 T("rand", "groups", 2000, 40000), T("mlg", "mlgroups", 1000, 20000)]
     if prop == "C04":
         return [G("part", Leaves="<-LvCore", Quants="<-QSmall", MaxSize=4, MaxLen=3 if q else 4,
-                  Variants='{"base", "xsd"}')] + \
+                  Variants='{"base", "xsd"}', invs=THEOREMS + ["T20_ScanRefines"])] + \
                ([] if q else [G("part5", Leaves="<-LvCore", Quants="<-QBasicLazy", MaxSize=5, MaxLen=3,
                                 Variants='{"base", "xsd"}')]) + [
                 G("astral", Leaves="<-LvAstral", Quants="<-QSmall", MaxSize=3 if q else 4, Alpha="{66560, 769, 97}",
